@@ -215,7 +215,9 @@ impl Monitor for C02 {
     fn cold_start(&self, rec: &mut Recorder) {
         // the process's first v2 parses, from twelve threads at the same instant: every result is
         // judged against the table oracle like any other
-        let inputs: Vec<Vec<u8>> = (0..24u64)
+        let rot = spec::engine::cold_rot();
+        let nthreads = if rot % 3 == 2 { 1 } else { 12 };
+        let mut inputs: Vec<Vec<u8>> = (0..24u64)
             .map(|i| {
                 let (vc, fp) = valid_ctl(i);
                 let mut rng = spec::rng::Rng::new(i ^ 0xC01D);
@@ -227,14 +229,22 @@ impl Monitor for C02 {
                 b
             })
             .collect();
-        let outs = spec::engine::race_start(12, |t| (0..24).map(|k| v2_parse(&inputs[(k + 2 * t) % 24])).collect::<Vec<O2>>());
+        // control bytes and length all zero / all ones / one nibble wrong, before and after valid ones
+        for ctl in [[0u8, 0, 0, 0], [0xFF; 4], [0x21, 0x00, 0, 0], [0x20, 0x00, 0, 0], [0x11, 0x11, 0, 12], [0x22, 0x11, 0, 12], [0x21, 0x41, 0, 12], [0x21, 0x13, 0, 12]] {
+            let mut b = SIG.to_vec();
+            b.extend_from_slice(&ctl);
+            b.extend_from_slice(&[7u8; 12]);
+            inputs.push(b);
+        }
+        let n = inputs.len();
+        let outs = spec::engine::race_start(nthreads, |t| (0..n).map(|k| v2_parse(&inputs[(rot + k + 2 * t) % n])).collect::<Vec<O2>>());
         for (t, list) in outs.iter().enumerate() {
             for (k, o) in list.iter().enumerate() {
-                let x = &inputs[(k + 2 * t) % 24];
+                let x = &inputs[(rot + k + 2 * t) % n];
                 let later = v2_parse(x);
                 rec.events(2);
                 if *o != later {
-                    rec.violation("cold-start-race", enc_case("v2", x), "cold-start".into(), format!("cold start: thread {} of 12, as one of the first v2 parses of the process, got {} for {:?}; the same call later gives {}", t, o.class(), show(&x[..x.len().min(24)], 24), later.class()));
+                    rec.violation("cold-start-race", enc_case("v2", x), "cold-start".into(), format!("cold start: thread {} of {}, as one of the first v2 parses of the process, got {} for {:?}; the same call later gives {}", t, nthreads, o.class(), show(&x[..x.len().min(24)], 24), later.class()));
                 }
             }
         }
